@@ -124,3 +124,44 @@ def mrts_exact(case, pool=None):
             trs = [trs[k] for k in pool]
         return O.default_thresh_exact(trs, T0, T1)
     return Fr(m or 0)
+
+
+def sibling_wider_edges(case, w=1.0):
+    """the same spike times on a wider recording"""
+    c = dict(case)
+    c["t0"] = case["t0"] - w
+    c["t1"] = case["t1"] + w
+    return c
+
+
+def sibling_same_count_and_sum(case, k=0):
+    """train k with two spikes moved towards each other by the same amount: same
+    number of spikes, same sum of spike times, other spike times (None if the
+    train has no two spikes that can be moved)"""
+    tr = list(case["trains"][k])
+    if len(tr) < 3:
+        return None
+    i, j = 0, len(tr) - 1
+    u = min(tr[i + 1] - tr[i], tr[j] - tr[j - 1]) / 4.0
+    if not u > 0:
+        return None
+    new = list(tr)
+    new[i] = tr[i] + u
+    new[j] = tr[j] - u
+    if sorted(set(new)) != new or new == tr:
+        return None
+    c = dict(case)
+    c["trains"] = [list(t) for t in case["trains"]]
+    c["trains"][k] = new
+    return c
+
+
+def edit_in_place(st):
+    """the caller edits a train it already passed to the library: drop the last
+    spike (or put one in the middle of an empty train); returns the new times"""
+    if len(st.spikes) > 0:
+        new = np.array(st.spikes[:-1], dtype=float)
+    else:
+        new = np.array([(st.t_start + st.t_end) / 2.0])
+    st.spikes = new
+    return [float(v) for v in new]
